@@ -17,6 +17,9 @@ AS_PTS = {
 }
 
 
+import openmdao.api as om  # noqa: E402
+
+
 class Live:
     """A live Problem of one model kind."""
 
@@ -137,7 +140,15 @@ class Live:
             if "n_point_masses" in dd:
                 pr.set_val("wing_point_masses", np.array([300.0]) * d["th"])
 
-    def run(self):
+    def run(self, strategy="solve_first"):
+        """run_model.  strategy 'residual_first': the coupled groups' NonlinearBlockGS evaluates the true residuals
+        (use_apply_nonlinear=True) - a supported option of a supported solver; 'solve_first' is the default."""
+        import openmdao.api as om
+
+        for g in self.m.prob.model.system_iter(recurse=True, include_self=True):
+            nls = getattr(g, "_nonlinear_solver", None)
+            if isinstance(nls, om.NonlinearBlockGS):
+                nls.options["use_apply_nonlinear"] = strategy == "residual_first"
         self.m.prob.run_model()
 
     def outputs(self):
@@ -237,6 +248,10 @@ def replay(kind, hist, start="p0", mode="auto", rtol=1e-9):
     """Replay one history.  Returns list of deviation records (empty = conforms)."""
     L = Live(kind, mode)
     L.set_point(start)
+    if any(ev[0] == "run" and len(ev) > 1 and ev[1] == "residual_first" for ev in hist):
+        # the true-residual stopping test ends the coupled iteration at a (slightly) different iterate than the
+        # output-change test of the fresh reference: both are converged to the solver tolerance, not to each other
+        rtol = max(rtol, 2e-8)
     devs = []
     ran = None
     for i, ev in enumerate(hist):
@@ -244,7 +259,12 @@ def replay(kind, hist, start="p0", mode="auto", rtol=1e-9):
         if op == "set":
             L.set_point(ev[1])
         elif op == "run":
-            L.run()
+            try:
+                L.run(ev[1] if len(ev) > 1 else "solve_first")
+            except om.AnalysisError as e:
+                fresh(kind, L.pt, mode)  # the same point converges on a fresh Problem (else this raises: machinery)
+                devs.append({"step": i, "op": "run", "pt": L.pt, "what": "not_converged_after_history", "bad": [["coupled_solver", str(e)[:120]]]})
+                break
             ran = L.pt
             ref = fresh(kind, L.pt, mode)[0]
             bad = compare(L.outputs(), ref, rtol)
